@@ -192,11 +192,14 @@ def judge_history(seq, mode):
             if p0.threads_pids or p0.pids_names:
                 return [('v2-new-parser-does-not-start-empty', {'step': step, 'tp': repr(p0.threads_pids)})], ((), ())
             blob, threads, recs = build(*H_DUMPS[name])
-            g = p0.parse(io.BytesIO(blob))
-            first = next(g, None)
-            other = KdBufParser()
-            list(other.parse(io.BytesIO(build(*H_DUMPS['B'])[0])))      # another default-built parser runs to the end meanwhile
-            rest = list(g)
+            try:
+                g = p0.parse(io.BytesIO(blob))
+                first = next(g, None)
+                other = KdBufParser()
+                list(other.parse(io.BytesIO(build(*H_DUMPS['B'])[0])))  # another default-built parser runs to the end meanwhile
+                rest = list(g)
+            except Exception as ex:
+                return [('v2-history-raised:' + type(ex).__name__, {'step': step, 'mode': mode, 'error': repr(ex)[:200]})], ((), ())
             exp_tp, exp_pn = thread_tables(threads)
             if p0.threads_pids != exp_tp or p0.pids_names != exp_pn:
                 return [('v2-history-leftover-or-missing-table-entry', {'step': step, 'mode': mode, 'tp': repr(p0.threads_pids), 'exp_tp': repr(exp_tp)})], ((), ())
@@ -349,10 +352,14 @@ class C02(Check):
             pool = [rec(ts, (a, 0, 0, 0), 9, 0x040c0004 | q) for ts, a, q in ((5, 9, 2), (5, 1, 1), (5, 5, 0), (4, 7, 1), (6, 0, 2))]
             for perm in itertools.permutations(range(len(pool)), 4):
                 recs = [pool[i] for i in perm]
-                got, err, _ = parse_kd(v2([], 0, recs), {}, {})
-                acc.case(nontrivial=True, transitions=4, outcome=h64(('order', perm)))
-                if got != [ref_decode(r) for r in recs] or err:
-                    acc.violation('v2-events-not-in-file-order', {'kind': 'long', 'perm': list(perm)}, {'err': err})
+                for entry in ('kd', 'facade'):
+                    if entry == 'kd':
+                        got, err, _ = parse_kd(v2([], 0, recs), {}, {})
+                    else:
+                        got, err = parse_facade(v2([], 0, recs), PyKdebugParser())
+                    acc.case(nontrivial=True, transitions=4, outcome=h64(('order', perm)))
+                    if got != [ref_decode(r) for r in recs] or err:
+                        acc.violation('v2-events-not-in-file-order', {'kind': 'long', 'perm': list(perm), 'entry': entry}, {'err': err})
             for n in sorted({2 ** k + d for k in range(6, 14) for d in (-1, 0, 1)} | {1500}):
                 recs = [rec(1000 + i, (i, i * 3, 7, 9), 1 + i % 3, 0x040c0004 | (i % 4)) for i in range(n)]
                 for pad in (0, 64):
